@@ -865,8 +865,11 @@ func gen(r *rand.Rand, tier string, emit func(core.Case)) {
 	for i := 0; i < nNode; i++ {
 		blocks := 2 + r.Intn(2)
 		fails := []string{strconv.Itoa(r.Intn(11*blocks + 4))}
-		for d := r.Intn(3); d > 0; d-- {
-			fails = append(fails, strconv.Itoa(r.Intn(8)))
+		if i%3 == 0 { // around the own-vote fail points: privval ahead of the WAL, votes replayed / refused / stale
+			fails = []string{strconv.Itoa([]int{0, 1, 2, 11, 12, 13}[r.Intn(6)])}
+		}
+		for d := r.Intn(4); d > 0; d-- {
+			fails = append(fails, strconv.Itoa(r.Intn(13)))
 		}
 		var txs []string
 		for j := r.Intn(6); j > 0; j-- {
